@@ -9,8 +9,10 @@ import (
 	"encoding/json"
 	"strings"
 
+	"github.com/google/tink/go/keyset"
 	"golang.org/x/crypto/chacha20poly1305"
 
+	"github.com/hyperledger/aries-framework-go/component/kmscrypto/doc/jose"
 	cryptoapi "github.com/hyperledger/aries-framework-go/spi/crypto"
 )
 
@@ -110,6 +112,45 @@ func envForgeHand(c envCase, parties []*envParty, where string) ([]byte, bool) {
 		return nil, false
 	}
 	return []byte(strings.Join([]string{p64, b64u(wk.EncryptedCEK), b64u(nonce), b64u(ct), b64u(tag)}, ".")), true
+}
+
+// envForgeMallory: the outsider runs the HONEST ECDH-1PU sender computation with ITS OWN key pair and names the sender's
+// key in `skid` (and apu). The recipient derives the key-encryption key from the key `skid` resolves to: unless that
+// derivation really depends on the sender's static key, the envelope opens and is attributed to the sender.
+func envForgeMallory(c envCase, parties []*envParty) ([]byte, bool) {
+	if c.kind != "aj" {
+		return nil, false
+	}
+	mallory := parties[len(parties)-1]
+	rec := *parties[1].pubKey
+	rec.KID = parties[1].didKey
+	skid := parties[0].didKey
+	if c.kidstyle == "dd" {
+		rec.KID = parties[1].kaID
+		skid = parties[0].kaID
+	}
+	khi, err := mallory.kms.Get(mallory.kid)
+	if err != nil {
+		return nil, false
+	}
+	kh, ok := khi.(*keyset.Handle)
+	if !ok {
+		return nil, false
+	}
+	enc, err := jose.NewJWEEncrypt(envEncAlgs[c.enc], "application/didcomm-encrypted+json", "application/didcomm-plain+json", skid, kh,
+		[]*cryptoapi.PublicKey{&rec}, envCrypto)
+	if err != nil {
+		return nil, false
+	}
+	jwe, err := enc.Encrypt([]byte(`{"forged":"by the outsider with its own key"}`))
+	if err != nil {
+		return nil, false
+	}
+	s, err := jwe.CompactSerialize(json.Marshal)
+	if err != nil {
+		return nil, false
+	}
+	return []byte(s), true
 }
 
 // envCoRecipient: recipient 2 of a genuine multi-recipient envelope recovers the CEK with its own key and re-encrypts
